@@ -26,7 +26,7 @@ func propC17(c *Ctx) {
 		for _, cb := range c.Calls(fn, Is("iface:waiter.EntryCallback.Callback"), false) {
 			c.Check(held(cb.(ssa.Instruction), false), y1, FuncName(fn)+"/callback-under-lock", c.pos(cb), "callback invoked with Queue.mu held", "callback invoked after the queue lock was released: it can run after EventUnregister returned")
 		}
-		for _, nx := range c.Calls(fn, Is("iface:ilist.Element.Next", "(*ilist.List).Front"), false) {
+		for _, nx := range c.Calls(fn, Is("iface:ilist.Linker.Next", "(*ilist.List).Front"), false) {
 			c.Check(held(nx.(ssa.Instruction), false), y1, FuncName(fn)+"/traversal-under-lock:"+CalleeName(nx), c.pos(nx), "traversal step under Queue.mu", "list traversed without Queue.mu")
 		}
 	}
@@ -40,13 +40,13 @@ func propC17(c *Ctx) {
 
 	y2 := c.Rule("Y2", "K9 site table (exact guards)", "callback iff registered and masks intersect", 3)
 	if fn := c.Fn(y2, q+"Notify"); fn != nil {
-		it := "phi{(*ilist.List).Front(&$0.list) | iface:ilist.Element.Next(loop)}"
+		it := "phi{(*ilist.List).Front(&$0.list) | iface:ilist.Linker.Next(loop)}"
 		e := it + ".(*waiter.Entry)"
 		c.CheckSites(y2, fn, []SiteSpec{
 			{Kind: "call", Target: "iface:waiter.EntryCallback.Callback", Args: []string{e + ".Callback", e}, Guards: []string{"!(nil == " + it + ")", "!(($1 & " + e + ".mask) == 0)"}, Exact: true, N: 1,
 				Why: "callback of the element, with the element, exactly when it is in the list and mask&e.mask != 0"},
 			{Kind: "call", Target: "(*ilist.List).Front", Args: []string{"&$0.list"}, Guards: []string{}, Exact: true, N: 1, Why: "traversal starts at the front unconditionally"},
-			{Kind: "call", Target: "iface:ilist.Element.Next", Args: []string{it}, Guards: []string{"!(nil == " + it + ")"}, Exact: true, N: 1, Why: "every element is visited: advance for each non-nil element, no early exit"},
+			{Kind: "call", Target: "iface:ilist.Linker.Next", Args: []string{it}, Guards: []string{"!(nil == " + it + ")"}, Exact: true, N: 1, Why: "every element is visited: advance for each non-nil element, no early exit"},
 		})
 	}
 	y3 := c.Rule("Y3", "K5/K2 site table", "register: mask then PushBack; unregister removes the given entry", 3)
